@@ -21,7 +21,7 @@ from mc import bootstrap, core
 from mc.refs import relmodel
 
 NEEDS_BRIDGEPOINT = True
-BUDGET_S = {'quick': 300, 'thorough': 2400}
+BUDGET_S = {'quick': 3600, 'thorough': 14400}
 ASSUMPTIONS = [
     'association key spellings equal the declared attribute spellings',
     'the API route is compared for populations whose join respects the declared multiplicities; rows are created referred-first',
